@@ -28,6 +28,8 @@ type Solver struct {
 	stack   [][]cmdEntry
 	timeout int // ms per check-sat
 	curTimeout int
+	scopes  []int
+	nscope  int
 	Checks  int
 	Time    time.Duration
 	dead    bool
@@ -118,12 +120,36 @@ func (s *Solver) DefineArr(name, v string, body *Term) {
 	})
 }
 
+// ScopeID identifies the innermost open scope; Alive tells whether a scope is
+// still open (facts asserted in it are still asserted).
+func (s *Solver) ScopeID() int {
+	if len(s.scopes) == 0 {
+		return 0
+	}
+	return s.scopes[len(s.scopes)-1]
+}
+
+func (s *Solver) Alive(id int) bool {
+	if id == 0 {
+		return true
+	}
+	for _, x := range s.scopes {
+		if x == id {
+			return true
+		}
+	}
+	return false
+}
+
 func (s *Solver) Push() {
+	s.nscope++
+	s.scopes = append(s.scopes, s.nscope)
 	s.stack = append(s.stack, nil)
 	io.WriteString(s.in, "(push 1)\n")
 }
 
 func (s *Solver) Pop() {
+	s.scopes = s.scopes[:len(s.scopes)-1]
 	s.stack = s.stack[:len(s.stack)-1]
 	io.WriteString(s.in, "(pop 1)\n")
 }
